@@ -98,6 +98,17 @@ def _check(assertions, timeout_ms, simple=False, mbqi=True):
 
 
 def prove(hyps, goal, timeout_ms=None, use_cvc5=True, plain=False, cheap=False):
+    """Budgeted: a first attempt with the normal budget; an `unknown` (solver timeout - typically a loaded machine) is
+    retried once with eight times the budget before it is reported, so that verdicts do not flip under load."""
+    r = _prove(hyps, goal, timeout_ms, use_cvc5, plain, cheap)
+    if r[0] == "unknown" and not cheap:
+        stats["retries"] = stats.get("retries", 0) + 1
+        r2 = _prove(hyps, goal, (timeout_ms or Z3_TIMEOUT_MS) * 8, use_cvc5, plain, cheap)
+        return (r2[0], r2[1], r2[2] + "(retry)", r[3] + r2[3])
+    return r
+
+
+def _prove(hyps, goal, timeout_ms=None, use_cvc5=True, plain=False, cheap=False):
     """Try to show hyps |= goal.  Returns (verdict, model_or_None, backend, seconds).
     verdict: 'proved' | 'refuted' (model of the full query) | 'candidate' (model of the instantiated,
     quantifier-free query: a candidate input to be confirmed by replay) | 'unknown'."""
